@@ -296,11 +296,86 @@ def check_heads_closed(ctx, F):
         ctx.bad('R7', 'floor: ChainCoderHeads literal sites', HEADS, 'only %d literal sites found' % len(sites), key='R7/floor/heads-literals')
 
 
+def _seed_of_head(ev, r, term):
+    """value the remainders-head accumulator had before its fill loop on this path."""
+    if isinstance(term, tuple) and term and term[0] == 'loop':
+        for e in r.events:
+            if e['kind'] == 'loop_enter' and e['head'] == term[1] and term[2] in e['pre']:
+                return e['pre'][term[2]]
+        return None
+    return term
+
+
+def check_marker_sentinel(ctx, F):
+    """Import and export of the remainders head agree on the artificial leading 1.
+
+    from_binary seeds the head with the constant 1 (a marker above the data), from_compressed seeds it with the first data
+    word.  The matching exporter drains the head word by word: it must stop at 1 exactly when the importer pushed the
+    marker, and must run down to 0 when every bit of the head is data - otherwise the top word is dropped or a marker
+    word is emitted.  Both facts are read from the MIR (seed of the accumulator before the fill loop; constant the drain
+    loop compares the head with)."""
+    AGG_HEADS = 'stream::chain::ChainCoderHeads'
+    for suffix in ('binary', 'compressed'):
+        imp = method_of(F, 'from_' + suffix)
+        exp = method_of(F, 'into_' + suffix)
+        key = 'R4/marker-sentinel/%s/%s' % (CHAIN, suffix)
+        role = 'the exporter drains the remainders head down to the marker the importer pushed (or to zero if it pushed none)'
+        if imp is None or exp is None:
+            ctx.unresolved('R4', role, CHAIN, 'from_%s / into_%s not found' % (suffix, suffix), key=key)
+            continue
+        ctx.touch(imp); ctx.touch(exp)
+        ev, paths = rules.evaluate(imp)
+        seeds = set()
+        for r in paths or []:
+            if r.end != 'return' or r.ret is None or not (r.ret[0] == 'agg' and r.ret[1][-1] == 'Ok'):
+                continue
+            heads = [x for x in sym.subterms(r.ret) if isinstance(x, tuple) and x and x[0] == 'agg' and isinstance(x[1], tuple) and x[1][0] == 'adt' and x[1][1] == AGG_HEADS]
+            for h in heads:
+                names = h[3]
+                if 'remainders' not in names:
+                    continue
+                sd = _seed_of_head(ev, r, h[2][names.index('remainders')])
+                if sd is None:
+                    seeds.add('?')
+                elif sd[0] == 'k' and sd[1] == 'one':
+                    seeds.add('marker')
+                elif sym.contains(sd, lambda x: isinstance(x, tuple) and x and x[0] == 'call' and str(x[1]).endswith('ReadWords::read')):
+                    seeds.add('data')
+                else:
+                    seeds.add('?')
+        ev2, paths2 = rules.evaluate(exp)
+        consts = set()
+        RH = (('f', 'heads'), ('f', 'remainders'))
+        for r in paths2 or []:
+            for t, v, _ in r.preds:
+                if not (isinstance(t, tuple) and t and t[0] == 'bin' and t[1].split('.')[0] in ('Ne', 'Eq', 'Lt', 'Le', 'Gt', 'Ge')):
+                    continue
+                for a, c in ((t[2], t[3]), (t[3], t[2])):
+                    if isinstance(a, tuple) and a[0] == 'loop' and tuple(a[2][-2:]) == RH and isinstance(c, tuple) and c[0] == 'k':
+                        consts.add(c[1])
+        if len(seeds) != 1 or '?' in seeds or len(consts) != 1:
+            ctx.unresolved('R4', role, CHAIN, 'importer seeds %s, exporter compares the head with %s' % (sorted(seeds), sorted(consts)), key=key)
+            continue
+        seed, const = list(seeds)[0], list(consts)[0]
+        if (seed == 'marker') == (const == 'one') and const in ('one', 'zero'):
+            ctx.ok('R4', role, CHAIN, 'from_%s seeds the head with %s; into_%s drains it while it differs from / exceeds %s()' % (suffix, 'the constant 1' if seed == 'marker' else 'the first data word', suffix, const), key=key)
+        else:
+            ctx.bad('R4', role, CHAIN, 'from_%s seeds the head with %s, but into_%s stops draining at %s(): %s' % (
+                suffix, 'the constant 1 (marker)' if seed == 'marker' else 'the first data word (no marker)', suffix, const,
+                'a top word equal to 1 is data here and is dropped from the output' if seed == 'data' else 'the marker is written out as if it were data'), key=key, loc=rules.loc(exp))
+
+
+def method_of(F, name):
+    out = [b for b in F.bodies if b.promoted is None and b.name == name and b.self_adt == CHAIN and b.dk == 'AssocFn' and b.impl_trait is None]
+    return out[0] if out else None
+
+
 def run(ctx):
     F = ctx.F
     check_out_of_data(ctx, F)
     check_precision_changers(ctx, F)
     check_heads_closed(ctx, F)
+    check_marker_sentinel(ctx, F)
     check_head_guards(ctx, F)
     if ctx.tier == 'thorough':
         from vlib import witness
